@@ -44,12 +44,20 @@ def run_harness(dst, h, timeout):
     cmd += h.get('extra', [])
     t0 = time.time()
     env = dict(os.environ, CARGO_NET_OFFLINE='true')
+    import signal
+    pr = subprocess.Popen(cmd, cwd=dst, stdout=subprocess.PIPE, stderr=subprocess.STDOUT, text=True, env=env, start_new_session=True)
     try:
-        pr = subprocess.run(cmd, cwd=dst, capture_output=True, text=True, timeout=timeout, env=env)
-        out = pr.stdout + pr.stderr
+        out, _ = pr.communicate(timeout=timeout)
         to = False
-    except subprocess.TimeoutExpired as e:
-        out = (e.stdout or b'').decode('utf8', 'replace') if isinstance(e.stdout, bytes) else (e.stdout or '')
+    except subprocess.TimeoutExpired:
+        try:
+            os.killpg(pr.pid, signal.SIGKILL)
+        except OSError:
+            pass
+        try:
+            out, _ = pr.communicate(timeout=10)
+        except Exception:
+            out = ''
         to = True
     wall = time.time() - t0
     ok = 'VERIFICATION:- SUCCESSFUL' in out
